@@ -129,6 +129,36 @@ Section Sound.
     rewrite E, ev_pconst. apply (morph1 Rphi).
   Qed.
 
+  (* ---- nodal duality with formal parameters: for EVERY value of the parameters ---- *)
+  Definition duality_param_spec (e : elem) : Prop :=
+    length (e_doflocs e) = nbfun e /\
+    (exists j x, (j < nbfun e)%nat /\ nth j (e_doflocs e) None = Some x) /\
+    forall j x, (j < nbfun e)%nat -> nth j (e_doflocs e) None = Some x ->
+      forall i, (i < nbfun e)%nat -> forall pt : nat -> R,
+        pev (nthp (values e) i) (fun k => if Nat.ltb k (e_dim e) then phi (nth k x 0%Q) else pt k) == phi (delta i j).
+
+  Theorem duality_param_ok_sound e : duality_param_ok e = true -> duality_param_spec e.
+  Proof.
+    unfold duality_param_ok. intros H.
+    apply andb_true_iff in H. destruct H as [H Hd].
+    apply andb_true_iff in H. destruct H as [H Hne].
+    apply andb_true_iff in H. destruct H as [_ Hl]. apply Nat.eqb_eq in Hl.
+    split; [exact Hl|]. split.
+    - destruct (located (e_doflocs e) (nbfun e)) as [|j l] eqn:E; [discriminate|].
+      assert (Hj : In j (located (e_doflocs e) (nbfun e))) by (rewrite E; now left).
+      unfold located in Hj. apply filter_In in Hj. destruct Hj as [Hs Hx]. apply in_seq in Hs.
+      destruct (nth j (e_doflocs e) None) as [x|] eqn:Ex; [|discriminate].
+      exists j, x. split; [lia | exact Ex].
+    - intros j x Hj Hx i Hi pt.
+      pose proof (forallb_seq _ _ Hd j Hj) as Hjx. cbv beta in Hjx. rewrite Hx in Hjx.
+      pose proof (forallb_seq _ _ Hjx i Hi) as E. cbv beta in E.
+      pose proof (peqb_s _ _ E pt) as E2. rewrite ev_psubst, ev_pconst in E2. rewrite <- E2.
+      apply (peval_ext R rO rI radd rmul ropp req phi Rsth Reqe). intros k. unfold at_coords.
+      destruct (Nat.ltb k (e_dim e)).
+      + symmetry. apply ev_pconst.
+      + symmetry. apply (peval_pvar R rO rI radd rmul rsub ropp req phi Rsth Reqe Rth Rphi).
+  Qed.
+
   (* ---- traces of vector fields ---- *)
   Definition rdot (v : list poly) (c : list Q) (pt : nat -> R) : R :=
     fold_right (fun vc acc => phi (snd vc) * pev (fst vc) pt + acc) rO (combine v c).
